@@ -21,7 +21,8 @@ fi
 if [ ! -x "$HERE/bin/vchk" ] || [ -n "$(find "$HERE/checker" -name '*.go' -newer "$HERE/bin/vchk" -not -path '*/vendor/*' -print -quit 2>/dev/null)" ]; then
   mkdir -p "$HERE/bin"; build
 fi
-if [ "${1:-}" = "dump" ] || [ "${1:-}" = "list" ]; then exec "$HERE/bin/vchk" -repo "$REPO" "$@"; fi
+if [ "${1:-}" = "dump" ] || [ "${1:-}" = "list" ] || [ "${1:-}" = "paramtable" ]; then exec "$HERE/bin/vchk" -repo "$REPO" "$@"; fi
 ID="${1:?property id}"; TIER="${2:-${VERIF_TIER:-quick}}"
-mkdir -p "$HERE/evidence"
-exec "$HERE/bin/vchk" -repo "$REPO" -out "$HERE/evidence" -known "$HERE/known-findings.txt" "$ID" "$TIER"
+OUT="${VERIF_EVIDENCE:-$HERE/evidence}"   # selftests against scratch trees write elsewhere
+mkdir -p "$OUT"
+exec "$HERE/bin/vchk" -repo "$REPO" -out "$OUT" -known "$HERE/known-findings.txt" "$ID" "$TIER"
